@@ -187,7 +187,7 @@ theorem absOps_top0 {cp : Bool} : ∀ (ops : List (Op St)) (a a' : Abs), absOps 
       | pushCur =>
         simp only [absOp] at h1
         cases hr : a.reg with
-        | known s => rw [hr] at h1; simp only [Option.some.injEq] at h1; subst h1; intro hh; rw [hr] at hh; cases hh
+        | known s => rw [hr] at h1; simp only [Option.some.injEq] at h1; subst h1; intro hh; simp at hh
         | top0 => rw [hr] at h1; cases h1
       | popToStep =>
         simp only [absOp] at h1
@@ -200,5 +200,649 @@ theorem absOps_top0 {cp : Bool} : ∀ (ops : List (Op St)) (a a' : Abs), absOps 
           · rw [if_neg hc] at h1; cases h1
       | found e b => simp only [absOp, Option.some.injEq] at h1; subst h1; exact h0
       | rewind n => simp only [absOp, Option.some.injEq] at h1; subst h1; exact h0
+
+/-! ### A: the abstract stack check -/
+
+theorem goodK_sound {nt : St → Bool} {cp popped : Bool} {orig : List St} (hcp : cp = true → TopGood nt orig) :
+    ∀ (pre : List St) (s : St), goodK nt cp popped s pre = true → Good nt s (pre ++ base orig popped)
+  | [], s, h => by
+    simp only [goodK, Bool.or_eq_true, Bool.not_eq_true', Bool.and_eq_true] at h
+    rcases h with h | ⟨hp, hc⟩
+    · exact good_of_nt_false h _
+    · simp only [List.nil_append, base, hp]
+      exact good_of_topGood s (hcp hc)
+  | p :: pre, s, h => by
+    simp only [goodK, Bool.or_eq_true, Bool.not_eq_true'] at h
+    rcases h with h | h
+    · exact good_of_nt_false h _
+    · exact good_cons s (goodK_sound hcp pre p h)
+
+theorem goodAbs_sound {nt : St → Bool} {cp popped : Bool} {orig : List St} (hcp : cp = true → TopGood nt orig)
+    (v : Val) (pre : List St) (h : goodAbs nt cp popped v pre = true) :
+    Good nt (conc orig v) (pre ++ base orig popped) := by
+  cases v with
+  | known s => exact goodK_sound hcp pre s h
+  | top0 =>
+    cases pre with
+    | nil =>
+      simp only [goodAbs, Bool.and_eq_true] at h
+      obtain ⟨t, rest, e, hg⟩ := hcp h.2
+      subst e
+      simpa [conc, base, h.1] using hg
+    | cons p pre => exact good_cons _ (goodK_sound hcp pre p h)
+
+/-! ### B: the events -/
+
+/-- `processEvent` over the event types only: the stack of open Begin events after the queue is processed
+(`none`: an End meets an empty stack or the wrong Begin) -/
+def evSim : List Ev → List Ev → Option (List Ev)
+  | stk, [] => some stk
+  | stk, e :: q =>
+    if e.isBeginning then evSim (e :: stk) q
+    else if e.isEnding then
+      match stk with
+      | [] => none
+      | b :: stk' => if b.matches e then evSim stk' q else none
+    else evSim stk q
+
+theorem evSim_append : ∀ (q1 : List Ev) (stk : List Ev) (q2 : List Ev),
+    evSim stk (q1 ++ q2) = (evSim stk q1).bind (fun s => evSim s q2)
+  | [], stk, q2 => by simp [evSim]
+  | e :: q1, stk, q2 => by
+    simp only [List.cons_append, evSim]
+    by_cases hb : e.isBeginning = true
+    · simp only [hb, if_true]; exact evSim_append q1 _ q2
+    · simp only [hb]
+      by_cases he : e.isEnding = true
+      · simp only [he, if_true]
+        cases stk with
+        | nil => rfl
+        | cons b stk' =>
+          simp only
+          by_cases hm : b.matches e = true
+          · simp only [hm, if_true]; exact evSim_append q1 _ q2
+          · simp only [hm]; rfl
+      · simp only [he]; exact evSim_append q1 _ q2
+
+theorem absEv_sound : ∀ (es : List Ev) (o o' : Option Ev), absEv o es = some o' →
+    evSim o.toList es = some o'.toList
+  | [], o, o', h => by simp only [absEv, Option.some.injEq] at h; subst h; rfl
+  | e :: es, o, o', h => by
+    simp only [absEv] at h
+    simp only [evSim]
+    by_cases hb : e.isBeginning = true
+    · simp only [hb, if_true] at h ⊢
+      cases o with
+      | none => exact absEv_sound es _ _ h
+      | some b => cases h
+    · simp only [hb] at h ⊢
+      by_cases he : e.isEnding = true
+      · simp only [he, if_true] at h ⊢
+        cases o with
+        | none => cases h
+        | some b =>
+          simp only [Option.toList] at h ⊢
+          by_cases hm : b.matches e = true
+          · simp only [hm, if_true] at h ⊢; exact absEv_sound es _ _ h
+          · simp only [hm] at h; cases h
+      · simp only [he] at h ⊢
+        exact absEv_sound es _ _ h
+
+/-- the stack of open events after the queued events are processed -/
+def EvS (sc : Sc) : Option (List Ev) := evSim (sc.evStack.map (·.1)) (sc.finds.map (·.1))
+
+theorem EvS_append {sc1 sc2 : Sc} {l : List (Ev × Nat)} (h1 : sc2.evStack = sc1.evStack)
+    (h2 : sc2.finds = sc1.finds ++ l) : EvS sc2 = (EvS sc1).bind (fun s => evSim s (l.map (·.1))) := by
+  simp only [EvS, h1, h2, List.map_append, evSim_append]
+
+/-! ### the invariants -/
+
+/-- a fault other than an exhausted step budget is excluded -/
+def Benign (s : Stop) : Prop := ∀ f, s = .fault f → f = .fuel
+
+theorem benign_diag (i : Nat) : Benign (.diag i) := fun _ h => by cases h
+theorem benign_miss (b : Bool) (i : Nat) : Benign (.oracleMiss b i) := fun _ h => by cases h
+theorem benign_fuel : Benign (.fault .fuel) := fun _ h => by cases h; rfl
+
+/-- every state on the step stack has no outstanding event and requires at most `srq` -/
+def StackOK (C : Cert) (stk : List St) : Prop := ∀ x ∈ stk, C.oe x = none ∧ C.rq x ≤ C.srq
+
+/-- the certificate is valid for the table -/
+structure Valid (C : Cert) : Prop where
+  init : checkInit C = true
+  code : ∀ st, checkCode C st (code st) = true
+
+/-- while the code of `st` runs on the current byte -/
+structure InvI (C : Cert) (st : St) (sc : Sc) : Prop where
+  regs : sc.step ∈ C.regs st
+  goodSt : Good C.nt st sc.stack
+  goodReg : Good C.nt sc.step sc.stack
+  stk : StackOK C sc.stack
+  ev : EvS sc = some (C.oe st).toList
+  oeReg : C.oe sc.step = C.oe st
+  rqSt : C.rq st ≤ sc.cur
+  rqReg : C.rq sc.step ≤ sc.cur
+  rew : sc.rew = 0
+
+/-- between two byte steps -/
+structure Live (C : Cert) (sc : Sc) : Prop where
+  good : Good C.nt sc.step sc.stack
+  stk : StackOK C sc.stack
+  ev : EvS sc = some (C.oe sc.step).toList
+  rq : C.rq sc.step ≤ sc.cur
+  rew : sc.rew = 0
+
+/-- after the end-of-file byte is consumed no byte step follows; the queued events are still consistent -/
+def Dead (d : Src) (sc : Sc) : Prop := d.size < sc.cur ∧ (EvS sc).isSome = true
+
+def Inv (C : Cert) (d : Src) (sc : Sc) : Prop := Live C sc ∨ Dead d sc
+
+/-- after the step function(s) of one byte, before `curIndex++` and the pending rewind -/
+structure Post (C : Cert) (d : Src) (sc : Sc) : Prop where
+  good : Good C.nt sc.step sc.stack
+  stk : StackOK C sc.stack
+  rq : C.rq sc.step + sc.rew ≤ sc.cur + 1
+  ev : EvS sc = some (C.oe sc.step).toList ∨ (d.size ≤ sc.cur ∧ sc.rew = 0 ∧ (EvS sc).isSome = true)
+
+theorem val_facts (C : Cert) {orig : List St} (hstk : StackOK C orig) {v : Val}
+    (htop : v = .top0 → TopGood C.nt orig) :
+    C.oe (conc orig v) = oeVal C.oe v ∧ C.rq (conc orig v) ≤ rqVal C.rq C.srq v := by
+  cases v with
+  | known s => exact ⟨rfl, Nat.le_refl _⟩
+  | top0 =>
+    obtain ⟨t, rest, e, _⟩ := htop rfl
+    subst e
+    have := hstk t List.mem_cons_self
+    exact ⟨this.1, this.2⟩
+
+theorem interp_succ (d : Src) (o : Oracle) (c : UInt8) (fuel : Nat) (st : St) (sc : Sc) :
+    interp d o c (fuel + 1) st sc =
+      match execOps sc ((code st).select c (evalCond d sc)).1 with
+      | .error f => .error (.fault f)
+      | .ok sc' =>
+        match ((code st).select c (evalCond d sc)).2 with
+        | .done => .ok sc'
+        | .err => .error (.diag sc'.cur)
+        | .call s' => interp d o c fuel s' sc'
+        | .redispatch => interp d o c fuel sc'.step sc'
+        | .jschema => libBody sc' .schemaBegin (o.schemaLen sc'.cur) .stateSchemaClosed (c != 0)
+        | .enumBody => libBody sc' .enumBegin (o.enumLen sc'.cur) .stateEnumBodyClose false := by
+  rw [interp]
+  generalize Code.select c (evalCond d sc) (code st) = p
+  obtain ⟨ops, k⟩ := p
+  rfl
+
+theorem libBody_cases (sc : Sc) (b : Ev) (ans : LenAns) (closing : St) (z : Bool) :
+    (∃ s, libBody sc b ans closing z = .error s ∧ Benign s) ∨
+    (∃ n, libBody sc b ans closing z =
+      .ok { sc with finds := sc.finds ++ [(b, sc.cur)], cur := sc.cur + (n - 1), step := closing }) := by
+  cases ans with
+  | miss => exact Or.inl ⟨_, rfl, benign_miss _ _⟩
+  | err pos => exact Or.inl ⟨_, rfl, benign_diag _⟩
+  | len n =>
+    simp only [libBody]
+    by_cases h : (n == 0 && z) = true
+    · rw [if_pos h]; exact Or.inl ⟨_, rfl, benign_diag _⟩
+    · rw [if_neg h]; exact Or.inr ⟨n, rfl⟩
+
+theorem mem_base {orig : List St} {p : Bool} {x : St} (h : x ∈ base orig p) : x ∈ orig := by
+  cases p with
+  | false => simpa [base] using h
+  | true => exact List.mem_of_mem_tail (by simpa [base] using h)
+
+theorem self_mem_regs {C : Cert} (hV : Valid C) (st : St) : st ∈ C.regs st := by
+  have := hV.code st
+  simp only [checkCode, Bool.and_eq_true] at this
+  simpa using this.1
+
+/-- the library-delimited body leaves the configuration in a state that `Post` describes -/
+theorem post_libBody {C : Cert} {d : Src} {sc' : Sc} {b : Ev} {closing : St} {n : Nat}
+    (hgood : Good C.nt closing sc'.stack) (hstk : StackOK C sc'.stack)
+    (hrq : C.rq closing + sc'.rew ≤ sc'.cur + 1)
+    (hev : EvS sc' = some []) (hb : b.isBeginning = true) (hoe : C.oe closing = some b) :
+    Post C d { sc' with finds := sc'.finds ++ [(b, sc'.cur)], cur := sc'.cur + (n - 1), step := closing } := by
+  refine ⟨hgood, hstk, ?_, Or.inl ?_⟩
+  · show C.rq closing + sc'.rew ≤ sc'.cur + (n - 1) + 1
+    omega
+  · rw [EvS_append (sc1 := sc') (sc2 := { sc' with finds := sc'.finds ++ [(b, sc'.cur)], cur := sc'.cur + (n - 1), step := closing })
+      (l := [(b, sc'.cur)]) rfl rfl, hev]
+    simp [evSim, hb, hoe]
+
+/-- **one byte**: from the invariant of the running state function, the step function(s) of the byte never
+pop an empty stack nor compute a negative position, and re-establish the invariant -/
+theorem interp_safe {C : Cert} (hV : Valid C) (d : Src) (o : Oracle) (c : UInt8) :
+    ∀ (fuel : Nat) (st : St) (sc : Sc), InvI C st sc → (c = 0 → d.size ≤ sc.cur) →
+      match interp d o c fuel st sc with
+      | .ok sc' => Post C d sc'
+      | .error s => Benign s := by
+  intro fuel
+  induction fuel with
+  | zero => intro st sc _ _; simp only [interp]; exact benign_fuel
+  | succ fuel ih =>
+    intro st sc hI hc
+    have hmem := select_mem_leavesBy c (evalCond d sc) (code st)
+    have hcode := hV.code st
+    simp only [checkCode, Bool.and_eq_true, List.all_eq_true] at hcode
+    have hleaf := hcode.2 sc.step hI.regs _ hmem
+    rw [interp_succ]
+    generalize (code st).select c (evalCond d sc) = leaf at hleaf ⊢
+    obtain ⟨ops, k⟩ := leaf
+    simp only [checkLeaf] at hleaf
+    cases ha : absOps (C.nt st || C.nt sc.step) (a0 sc.step) ops with
+    | none => rw [ha] at hleaf; cases hleaf
+    | some a =>
+      rw [ha] at hleaf
+      simp only [Bool.and_eq_true] at hleaf
+      obtain ⟨⟨⟨hA, hB⟩, hC⟩, hR⟩ := hleaf
+      have hcpT : (C.nt st || C.nt sc.step) = true → TopGood C.nt sc.stack := by
+        intro h
+        simp only [Bool.or_eq_true] at h
+        rcases h with h | h
+        · exact topGood_of_good hI.goodSt h
+        · exact topGood_of_good hI.goodReg h
+      have hcp : (C.nt st || C.nt sc.step) = true → sc.stack ≠ [] := fun h => by
+        obtain ⟨t, r, e, _⟩ := hcpT h; rw [e]; exact List.cons_ne_nil _ _
+      simp only [finC, lowC, Bool.and_eq_true] at hC
+      obtain ⟨⟨hbk, hlow⟩, hpush⟩ := hC
+      have hbacks : ∀ e b, Op.found e b ∈ ops → b ≤ sc.cur :=
+        fun e b hm => Nat.le_trans (backsOK_sound hbk e b hm) hI.rqSt
+      have hexec : execOps sc ops = .ok (concSc sc a) := by
+        have := absOps_sound hcp ops _ _ ha hbacks
+        rwa [concSc_a0] at this
+      have htop : a.reg = .top0 → TopGood C.nt sc.stack :=
+        fun h => hcpT (absOps_top0 ops _ _ ha (by intro h'; simp [a0] at h') h)
+      obtain ⟨hoe, hrq⟩ := val_facts C hI.stk htop
+      simp only [finB] at hB
+      cases hev : absEv (C.oe st) (a.evs.map (·.1)) with
+      | none => rw [hev] at hB; cases hB
+      | some o' =>
+        rw [hev] at hB
+        simp only [Bool.and_eq_true, List.all_eq_true] at hB
+        obtain ⟨hpreB, hkB⟩ := hB
+        simp only [pushC, List.all_eq_true, decide_eq_true_eq] at hpush
+        have hstk' : StackOK C (concSc sc a).stack := by
+          intro x hx
+          have hx' : x ∈ a.pre ++ base sc.stack a.popped := hx
+          rcases List.mem_append.mp hx' with hx' | hx'
+          · exact ⟨by simpa using hpreB x hx', hpush x hx'⟩
+          · exact hI.stk x (mem_base hx')
+        have hEv' : EvS (concSc sc a) = some o'.toList := by
+          rw [EvS_append (sc1 := sc) (sc2 := concSc sc a) (l := a.evs.map (fun p => (p.1, sc.cur - p.2))) rfl rfl, hI.ev]
+          simp only [Option.bind_some, List.map_map]
+          exact absEv_sound _ _ _ hev
+        have hrew := hI.rew
+        have hrqSt := hI.rqSt
+        rw [hexec]
+        simp only
+        cases k with
+        | done =>
+          simp only [finA] at hA
+          simp only [Bool.or_eq_true, Bool.and_eq_true, beq_iff_eq, decide_eq_true_eq] at hkB hlow
+          refine ⟨goodAbs_sound hcpT a.reg a.pre hA, hstk', ?_, ?_⟩
+          · show C.rq (conc sc.stack a.reg) + (sc.rew + a.rew) ≤ sc.cur + 1
+            omega
+          · rcases hkB with ⟨hc0, hr0⟩ | hk
+            · refine Or.inr ⟨hc hc0, ?_, by rw [hEv']; rfl⟩
+              show sc.rew + a.rew = 0
+              omega
+            · refine Or.inl ?_
+              rw [hEv']
+              show some o'.toList = some (C.oe (conc sc.stack a.reg)).toList
+              rw [hoe, hk]
+        | err => exact benign_diag _
+        | call s' =>
+          simp only [finA, Bool.and_eq_true] at hA
+          simp only [Bool.and_eq_true, beq_iff_eq, decide_eq_true_eq] at hkB hlow
+          simp only [finR] at hR
+          cases hreg : a.reg with
+          | top0 => rw [hreg] at hR; cases hR
+          | known x =>
+            rw [hreg] at hR
+            refine ih s' (concSc sc a) ?_ hc
+            refine ⟨?_, goodK_sound hcpT a.pre s' hA.2, goodAbs_sound hcpT a.reg a.pre hA.1, hstk', ?_, ?_, ?_, ?_, ?_⟩
+            · show conc sc.stack a.reg ∈ C.regs s'
+              rw [hreg]; simpa [conc] using hR
+            · rw [hEv', hkB.1]
+            · show C.oe (conc sc.stack a.reg) = C.oe s'
+              rw [hoe, hkB.2, hkB.1]
+            · show C.rq s' ≤ sc.cur
+              omega
+            · show C.rq (conc sc.stack a.reg) ≤ sc.cur
+              omega
+            · show sc.rew + a.rew = 0
+              omega
+        | redispatch =>
+          simp only [finA] at hA
+          simp only [Bool.and_eq_true, beq_iff_eq, decide_eq_true_eq] at hkB hlow
+          have hg := goodAbs_sound hcpT a.reg a.pre hA
+          refine ih (concSc sc a).step (concSc sc a) ?_ hc
+          refine ⟨self_mem_regs hV _, hg, hg, hstk', ?_, rfl, ?_, ?_, ?_⟩
+          · rw [hEv']
+            show some o'.toList = some (C.oe (conc sc.stack a.reg)).toList
+            rw [hoe, hkB]
+          · show C.rq (conc sc.stack a.reg) ≤ sc.cur
+            omega
+          · show C.rq (conc sc.stack a.reg) ≤ sc.cur
+            omega
+          · show sc.rew + a.rew = 0
+            omega
+        | jschema =>
+          simp only [finA] at hA
+          simp only [Bool.and_eq_true, beq_iff_eq, decide_eq_true_eq] at hkB hlow
+          rcases libBody_cases (concSc sc a) .schemaBegin (o.schemaLen (concSc sc a).cur) .stateSchemaClosed (c != 0)
+            with ⟨s, hs, hb⟩ | ⟨n, hn⟩
+          · rw [hs]; exact hb
+          · rw [hn]
+            refine post_libBody (goodK_sound hcpT a.pre _ hA) hstk' ?_ (by rw [hEv', hkB.1]; rfl) rfl hkB.2
+            show C.rq .stateSchemaClosed + (sc.rew + a.rew) ≤ sc.cur + 1
+            omega
+        | enumBody =>
+          simp only [finA] at hA
+          simp only [Bool.and_eq_true, beq_iff_eq, decide_eq_true_eq] at hkB hlow
+          rcases libBody_cases (concSc sc a) .enumBegin (o.enumLen (concSc sc a).cur) .stateEnumBodyClose false
+            with ⟨s, hs, hb⟩ | ⟨n, hn⟩
+          · rw [hs]; exact hb
+          · rw [hn]
+            refine post_libBody (goodK_sound hcpT a.pre _ hA) hstk' ?_ (by rw [hEv', hkB.1]; rfl) rfl hkB.2
+            show C.rq .stateEnumBodyClose + (sc.rew + a.rew) ≤ sc.cur + 1
+            omega
+
+/-! ### the byte step -/
+
+theorem live_invI {C : Cert} (hV : Valid C) {sc : Sc} (h : Live C sc) : InvI C sc.step sc :=
+  ⟨self_mem_regs hV _, h.good, h.good, h.stk, h.ev, rfl, h.rq, h.rq, h.rew⟩
+
+/-- what a scanner operation may return: a configuration that satisfies the invariant, or a stop that is not
+a fault (other than the step budget) -/
+def SafeSc (C : Cert) (d : Src) : Except Stop Sc → Prop
+  | .ok sc => Inv C d sc
+  | .error s => Benign s
+
+def Safe (C : Cert) (d : Src) : Except Stop (Option Lexeme × Sc) → Prop
+  | .ok p => Inv C d p.2
+  | .error s => Benign s
+
+theorem byteStep_safe {C : Cert} (hV : Valid C) (d : Src) (o : Oracle) (sc : Sc) (hL : Live C sc) :
+    SafeSc C d (byteStep d o sc) := by
+  unfold byteStep
+  simp only
+  by_cases h0 : (sc.cur != d.size && curByte d sc == 0) = true
+  · rw [if_pos h0]; exact benign_diag _
+  · rw [if_neg h0]
+    have hc : curByte d sc = 0 → d.size ≤ sc.cur := by
+      intro hz
+      simp only [hz, beq_self_eq_true, Bool.and_true, bne_iff_ne, ne_eq, Decidable.not_not] at h0
+      omega
+    have hs := interp_safe hV d o (curByte d sc) stepFuel sc.step sc (live_invI hV hL) hc
+    cases hi : interp d o (curByte d sc) stepFuel sc.step sc with
+    | error s => rw [hi] at hs; exact hs
+    | ok sc1 =>
+      rw [hi] at hs
+      have hP : Post C d sc1 := hs
+      have hrq := hP.rq
+      simp only
+      by_cases hu : sc1.rew > sc1.cur + 1
+      · exfalso; omega
+      · rw [if_neg hu]
+        rcases hP.ev with he | ⟨hsz, hr, hsome⟩
+        · refine Or.inl ⟨hP.good, hP.stk, he, ?_, rfl⟩
+          show C.rq sc1.step ≤ sc1.cur + 1 - sc1.rew
+          omega
+        · refine Or.inr ⟨?_, hsome⟩
+          show d.size < sc1.cur + 1 - sc1.rew
+          omega
+
+/-! ### the lexeme events -/
+
+theorem processEvent_safe (sc : Sc) (ev : Ev × Nat) (q L : List Ev)
+    (h : evSim (sc.evStack.map (·.1)) (ev.1 :: q) = some L) :
+    ∃ lex es, processEvent sc ev = .ok (lex, { sc with evStack := es }) ∧ evSim (es.map (·.1)) q = some L := by
+  unfold processEvent
+  simp only [evSim] at h
+  by_cases hb : ev.1.isBeginning = true
+  · simp only [hb, if_true] at h ⊢
+    exact ⟨none, ev :: sc.evStack, rfl, by simpa using h⟩
+  · simp only [hb] at h ⊢
+    by_cases he : ev.1.isEnding = true
+    · simp only [he, if_true] at h ⊢
+      cases hs : sc.evStack with
+      | nil => rw [hs] at h; simp at h
+      | cons start rest =>
+        rw [hs] at h
+        simp only [List.map_cons] at h
+        by_cases hm : start.1.matches ev.1 = true
+        · simp only [hm, if_true] at h ⊢
+          exact ⟨some _, rest, rfl, h⟩
+        · simp only [hm] at h; cases h
+    · simp only [he] at h ⊢
+      exact ⟨some _, sc.evStack, rfl, h⟩
+
+theorem inv_congr {C : Cert} {d : Src} {sc sc' : Sc} (h1 : sc'.step = sc.step) (h2 : sc'.stack = sc.stack)
+    (h3 : EvS sc' = EvS sc) (h4 : sc'.cur = sc.cur) (h5 : sc'.rew = sc.rew) (h : Inv C d sc) : Inv C d sc' := by
+  rcases h with h | h
+  · exact Or.inl ⟨by rw [h1, h2]; exact h.good, by rw [h2]; exact h.stk, by rw [h3, h1]; exact h.ev,
+      by rw [h1, h4]; exact h.rq, by rw [h5]; exact h.rew⟩
+  · exact Or.inr ⟨by rw [h4]; exact h.1, by rw [h3]; exact h.2⟩
+
+theorem inv_evs {C : Cert} {d : Src} {sc : Sc} (h : Inv C d sc) : ∃ L, EvS sc = some L := by
+  rcases h with h | h
+  · exact ⟨_, h.ev⟩
+  · exact Option.isSome_iff_exists.mp h.2
+
+/-- one queued event: `processLexemeEvent` neither pops an empty stack nor meets the wrong Begin -/
+theorem shift_safe {C : Cert} {d : Src} {sc : Sc} {ev : Ev × Nat} {rest : List (Ev × Nat)}
+    (hI : Inv C d sc) (hf : sc.finds = ev :: rest) :
+    ∃ lex sc', processEvent { sc with finds := rest } ev = .ok (lex, sc') ∧ sc'.finds = rest ∧ Inv C d sc' := by
+  obtain ⟨L, hL⟩ := inv_evs hI
+  have hL' : evSim (sc.evStack.map (·.1)) (ev.1 :: rest.map (·.1)) = some L := by
+    simpa [EvS, hf] using hL
+  obtain ⟨lex, es, hp, hes⟩ := processEvent_safe { sc with finds := rest } ev (rest.map (·.1)) L hL'
+  refine ⟨lex, _, hp, rfl, inv_congr (sc := sc) rfl rfl ?_ rfl rfl hI⟩
+  rw [hL]; exact hes
+
+theorem drainFinds_safe {C : Cert} {d : Src} : ∀ (n : Nat) (sc : Sc), n ≤ sc.finds.length → Inv C d sc →
+    ∃ lex sc', drainFinds n sc = .ok (lex, sc') ∧ Inv C d sc'
+  | 0, sc, _, hI => ⟨none, sc, rfl, hI⟩
+  | n + 1, sc, hn, hI => by
+    cases hf : sc.finds with
+    | nil => rw [hf] at hn; simp at hn
+    | cons ev rest =>
+      obtain ⟨lex, sc', hp, hfr, hI'⟩ := shift_safe hI hf
+      simp only [drainFinds, hf, hp]
+      cases lex with
+      | none =>
+        simp only
+        refine drainFinds_safe n sc' ?_ hI'
+        rw [hfr]; rw [hf] at hn; simpa using hn
+      | some lex =>
+        simp only
+        refine ⟨_, _, rfl, ?_⟩
+        cases lex.ty <;> exact inv_congr (sc := sc') rfl rfl rfl rfl rfl hI'
+
+/-! ### `Next` and the whole file -/
+
+theorem byteLoop_safe {C : Cert} (hV : Valid C) (d : Src) (o : Oracle) :
+    ∀ (fuel : Nat) (sc : Sc), Inv C d sc → Safe C d (byteLoop d o fuel sc)
+  | 0, _, _ => benign_fuel
+  | fuel + 1, sc, hI => by
+    simp only [byteLoop]
+    by_cases hgt : sc.cur > d.size
+    · rw [if_pos hgt]; exact hI
+    · rw [if_neg hgt]
+      have hL : Live C sc := by
+        rcases hI with h | h
+        · exact h
+        · exact absurd h.1 hgt
+      have hs := byteStep_safe hV d o sc hL
+      cases hb : byteStep d o sc with
+      | error s => rw [hb] at hs; exact hs
+      | ok sc2 =>
+        rw [hb] at hs
+        obtain ⟨lex, sc3, hd, hI3⟩ := drainFinds_safe sc2.finds.length sc2 (Nat.le_refl _) hs
+        simp only [hd]
+        cases lex with
+        | none => exact byteLoop_safe hV d o fuel sc3 hI3
+        | some lex => exact hI3
+
+theorem next_safe {C : Cert} (hV : Valid C) (d : Src) (o : Oracle) (fuel : Nat) (sc : Sc) (hI : Inv C d sc) :
+    Safe C d (next d o fuel sc) := by
+  unfold next
+  cases hf : sc.finds with
+  | nil => exact byteLoop_safe hV d o fuel sc hI
+  | cons ev rest =>
+    obtain ⟨lex, sc', hp, _, hI'⟩ := shift_safe hI hf
+    simp only [hp]
+    cases lex with
+    | none => exact byteLoop_safe hV d o fuel sc' hI'
+    | some lex => exact hI'
+
+theorem inv_init {C : Cert} (hV : Valid C) (d : Src) : Inv C d Sc.init := by
+  have h := hV.init
+  simp only [checkInit, Bool.and_eq_true, Bool.not_eq_true', beq_iff_eq] at h
+  refine Or.inl ⟨h.1.1, (fun x hx => nomatch hx), ?_, ?_, rfl⟩
+  · show evSim [] [] = some (C.oe .stateRoot).toList
+    rw [h.1.2]; rfl
+  · show C.rq .stateRoot ≤ 0
+    rw [h.2]; exact Nat.le_refl _
+
+theorem lexAll_safe {C : Cert} (hV : Valid C) (d : Src) (o : Oracle) :
+    ∀ (n : Nat) (sc : Sc) (acc : List Lexeme), Inv C d sc →
+      ∀ f, (lexAll d o n sc acc).2.1 = some (.fault f) → f = .fuel
+  | 0, sc, acc, _, f, h => by
+    simp only [lexAll, Option.some.injEq, Stop.fault.injEq] at h
+    exact h.symm
+  | n + 1, sc, acc, hI, f, h => by
+    simp only [lexAll] at h
+    have hs := next_safe hV d o (4 * (d.size + 2)) sc hI
+    cases hn : next d o (4 * (d.size + 2)) sc with
+    | error s =>
+      rw [hn] at hs h
+      simp only [Option.some.injEq] at h
+      exact hs f h
+    | ok p =>
+      obtain ⟨lex, sc'⟩ := p
+      rw [hn] at hs h
+      cases lex with
+      | none => simp at h
+      | some lex => exact lexAll_safe hV d o n sc' (lex :: acc) hs f h
+
+/-! ### every configuration a run passes through -/
+
+/-- the configurations that runs of `Next` from `Sc.init` pass through: byte steps (only taken inside the
+file, as in `byteLoop`), shifts of one queued event, and the parameter bookkeeping of `Next` -/
+inductive Reach (d : Src) (o : Oracle) : Sc → Prop
+  | init : Reach d o Sc.init
+  | step {sc sc' : Sc} : Reach d o sc → sc.cur ≤ d.size → byteStep d o sc = .ok sc' → Reach d o sc'
+  | event {sc sc' : Sc} {ev : Ev × Nat} {rest : List (Ev × Nat)} {lex : Option Lexeme} : Reach d o sc →
+      sc.finds = ev :: rest → processEvent { sc with finds := rest } ev = .ok (lex, sc') → Reach d o sc'
+  | params {sc : Sc} (p : List (Nat × Nat)) : Reach d o sc → Reach d o { sc with lastParams := p }
+
+theorem reach_inv {C : Cert} (hV : Valid C) {d : Src} {o : Oracle} {sc : Sc} (h : Reach d o sc) : Inv C d sc := by
+  induction h with
+  | init => exact inv_init hV d
+  | @step sc sc' _ hle hs ih =>
+    have hL : Live C sc := by
+      rcases ih with h | h
+      · exact h
+      · exact absurd h.1 (Nat.not_lt.mpr hle)
+    have := byteStep_safe hV d o sc hL
+    rw [hs] at this
+    exact this
+  | @event sc sc' ev rest lex _ hf hp ih =>
+    obtain ⟨lex', sc'', hp', _, hI⟩ := shift_safe ih hf
+    rw [hp'] at hp
+    cases hp
+    exact hI
+  | @params sc p _ ih => exact inv_congr (sc := sc) rfl rfl rfl rfl rfl ih
+
+theorem reach_drain {d : Src} {o : Oracle} : ∀ (n : Nat) (sc : Sc) (lex : Option Lexeme) (sc' : Sc),
+    Reach d o sc → drainFinds n sc = .ok (lex, sc') → Reach d o sc'
+  | 0, sc, lex, sc', hR, h => by
+    simp only [drainFinds, Except.ok.injEq, Prod.mk.injEq] at h
+    rw [← h.2]; exact hR
+  | n + 1, sc, lex, sc', hR, h => by
+    cases hf : sc.finds with
+    | nil => simp only [drainFinds, hf] at h; cases h
+    | cons ev rest =>
+      simp only [drainFinds, hf] at h
+      cases hp : processEvent { sc with finds := rest } ev with
+      | error s => rw [hp] at h; cases h
+      | ok p =>
+        obtain ⟨l1, sc1⟩ := p
+        have hR1 : Reach d o sc1 := Reach.event hR hf hp
+        rw [hp] at h
+        cases l1 with
+        | none => exact reach_drain n sc1 lex sc' hR1 h
+        | some l =>
+          simp only [Except.ok.injEq, Prod.mk.injEq] at h
+          rw [← h.2]
+          cases l.ty
+          case parameter => exact Reach.params _ hR1
+          case keyword => exact Reach.params _ hR1
+          all_goals exact hR1
+
+theorem reach_byteLoop {d : Src} {o : Oracle} : ∀ (fuel : Nat) (sc : Sc) (lex : Option Lexeme) (sc' : Sc),
+    Reach d o sc → byteLoop d o fuel sc = .ok (lex, sc') → Reach d o sc'
+  | 0, _, _, _, _, h => by simp only [byteLoop] at h; cases h
+  | fuel + 1, sc, lex, sc', hR, h => by
+    simp only [byteLoop] at h
+    by_cases hgt : sc.cur > d.size
+    · rw [if_pos hgt] at h
+      simp only [Except.ok.injEq, Prod.mk.injEq] at h
+      rw [← h.2]; exact hR
+    · rw [if_neg hgt] at h
+      cases hb : byteStep d o sc with
+      | error s => rw [hb] at h; cases h
+      | ok sc2 =>
+        rw [hb] at h
+        simp only at h
+        have hR2 : Reach d o sc2 := Reach.step hR (Nat.not_lt.mp hgt) hb
+        cases hd : drainFinds sc2.finds.length sc2 with
+        | error s => rw [hd] at h; cases h
+        | ok p =>
+          obtain ⟨l3, sc3⟩ := p
+          have hR3 := reach_drain _ _ _ _ hR2 hd
+          rw [hd] at h
+          cases l3 with
+          | none => exact reach_byteLoop fuel sc3 lex sc' hR3 h
+          | some l =>
+            simp only [Except.ok.injEq, Prod.mk.injEq] at h
+            rw [← h.2]; exact hR3
+
+/-- `Next` leads from a reachable configuration to a reachable configuration -/
+theorem reach_next {d : Src} {o : Oracle} {fuel : Nat} {sc sc' : Sc} {lex : Option Lexeme}
+    (hR : Reach d o sc) (h : next d o fuel sc = .ok (lex, sc')) : Reach d o sc' := by
+  unfold next at h
+  cases hf : sc.finds with
+  | nil => rw [hf] at h; exact reach_byteLoop fuel sc lex sc' hR h
+  | cons ev rest =>
+    rw [hf] at h
+    simp only at h
+    cases hp : processEvent { sc with finds := rest } ev with
+    | error s => rw [hp] at h; cases h
+    | ok p =>
+      obtain ⟨l1, sc1⟩ := p
+      have hR1 : Reach d o sc1 := Reach.event hR hf hp
+      rw [hp] at h
+      cases l1 with
+      | none => exact reach_byteLoop fuel sc1 lex sc' hR1 h
+      | some l =>
+        simp only [Except.ok.injEq, Prod.mk.injEq] at h
+        rw [← h.2]; exact hR1
+
+/-- the configuration `lexAll` ends in is reachable -/
+theorem reach_lexAll {d : Src} {o : Oracle} : ∀ (n : Nat) (sc : Sc) (acc : List Lexeme),
+    Reach d o sc → Reach d o (lexAll d o n sc acc).2.2
+  | 0, _, _, hR => hR
+  | n + 1, sc, acc, hR => by
+    simp only [lexAll]
+    cases hn : next d o (4 * (d.size + 2)) sc with
+    | error s => exact hR
+    | ok p =>
+      obtain ⟨lex, sc'⟩ := p
+      have hR' := reach_next hR hn
+      cases lex with
+      | none => exact hR'
+      | some l => exact reach_lexAll n sc' (l :: acc) hR'
 
 end JSight.ScanSafe
